@@ -1,4 +1,5 @@
 """C05 (and the shared machinery of C14): impersonate_tcp output is fingerprinted as the requested signature."""
+import os
 from harness import tcpgen as G, wire as W
 
 RULE = ("signatures are generated FROM WITNESSES: a random real SYN/SYN+ACK is built, the verified model extracts its signature and "
@@ -237,7 +238,17 @@ def impl_init():
             from scapy.layers.inet import IP as SIP, TCP as STCP
             ldb = U.load_db("[tcp:request]\nlabel = s:unix:L:1\nsig = *:64:0:*:8192,7:mss,nop,ws::0\n[tcp:response]\nlabel = s:unix:L:1\nsig = *:64:0:*:16384,2:mss,nop,ws::0\n")
             seq = []
-            for fl in (("S", "SA", "S", "SA") if len(c["sig"]) % 2 else ("SA", "S", "SA", "S")):
+            for n_call, fl in enumerate(("S", "SA", "S", "SA") if len(c["sig"]) % 2 else ("SA", "S", "SA", "S")):
+                if n_call == 2 and len(c["sig"]) % 3 == 0:
+                    # a load that FAILS in between (no such file / a broken file): the caller catches it and goes on with the records it had
+                    from pyp0f.exceptions import DatabaseError
+                    try:
+                        if len(c["sig"]) % 2:
+                            ldb.load(os.path.join(U._TMP, "no-such-database-%d.fp" % os.getpid()))
+                        else:
+                            U.load_db("[tcp:request]\nlabel = s:unix:L:1\nsig = *:64:0:*:8192,7:mss,nop,ws::0\n[tcp:response]\nlabel = s:unix:L:1\nsig = broken\n", db=ldb)
+                    except DatabaseError:
+                        pass
                 try:
                     r2 = impersonate_tcp(SIP() / STCP(flags=fl, seq=1, ack=1 if "A" in fl else 0), raw_label="s:unix:L:1", database=ldb, extra_hops=3)
                     seq.append([fl, r2.getlayer("TCP").window, dict(r2.getlayer("TCP").options).get("WScale"), r2.ttl])
